@@ -1,4 +1,5 @@
 import Insim.Props.C03
+import Insim.Props.C06
 /-
 C11 — text fields always occupy their exact wire width and terminate correctly.
 `writeStr` is `binrw_write_codepage_string::<N>` on the already-encoded bytes; `stripNul` is what every
@@ -95,5 +96,18 @@ theorem terminated_fails_aligned : (writeStr 128 4 [97, 98, 99, 100]).getLast? =
 example : writeStr 8 0 [72, 105] = [72, 105, 0, 0, 0, 0, 0, 0] := by decide
 example : writeStr 64 4 [72, 105, 33] = [72, 105, 33, 0] := by decide
 example : stripNul [72, 0, 105, 0] = [72] := by decide
+
+/-- **the sink does not matter**: a packet is serialised field by field, each field handed to the sink with `write_all`
+(`Conn.writeAll`: keep offering the rest until it is gone). On any sink — however few bytes it takes per call, however often it is
+not ready — when every write succeeds the sink holds exactly the in-memory image; the harness's `c11.sink` cases run
+the real writers against such sinks -/
+theorem sink_independent (fields : List Bytes) (img : Bytes) (hf : fields.flatten = img) (ws : List Conn.WEv) (out : Bytes)
+    (h : Conn.writeMany fields ws = (out, true)) : out = img :=
+  hf ▸ Props.C06.write_many_ok fields ws out h
+
+/-- … and whatever happens it holds a prefix of the image, never bytes out of place -/
+theorem sink_prefix (fields : List Bytes) (img : Bytes) (hf : fields.flatten = img) (ws : List Conn.WEv) :
+    (Conn.writeMany fields ws).1 <+: img :=
+  hf ▸ Props.C06.write_many_prefix fields ws
 
 end Insim.Props.C11
